@@ -446,7 +446,7 @@ def LSetter.limit : LSetter → Nat
 def setLocal (z : Zone) (k : LSetter) (d : DateObj) (args : List FV) : DateObj × Num :=
   let args := args.take k.limit
   let vals := if args.isEmpty then none else numberArgs args
-  if d.isNaN ∧ k ≠ .year then (d, none)          -- only setFullYear restarts from +0 (setYear does not)
+  if d.isNaN ∧ k ≠ .year ∧ k ≠ .year2 then (d, none)          -- setFullYear and setYear restart from +0
   else
     -- nanAsZero, local: date.SetTime(time.Date(1970, 1, 1, 0, 0, 0, 0, time.Local))
     let base := if d.isNaN then newDate (ofInt (z.dateToUnix 0 * 1000)) else d
@@ -675,7 +675,7 @@ def parseSecFrac (s : List Nat) : Option (Int × Int × List Nat) :=
 
 /-- dateParse on `YYYY-MM-DDTHH:mm[:ss[.sss]](Z|±hh:mm)` (four-digit year): `none` = another shape (not modelled),
     `some none` = NaN.  time.Parse range checks: month 1..12, day 1..daysIn, hour < 24, minute < 60, second < 60,
-    offset hour ≤ 24 and offset minute ≤ 60 (sic, format.go l.1266); then UnixMilli and TimeClip. -/
+    offset hour ≤ 24 (sic, format.go l.1266); then (AddDate of the end-of-day day,) UnixMilli and TimeClip. -/
 def dateParseFamily (s : List Nat) : Option Num := do
   let (y, s) ← digitsN 4 s
   let s ← expectByte 45 s
@@ -688,9 +688,14 @@ def dateParseFamily (s : List Nat) : Option Num := do
   let (mi, s) ← digitsN 2 s
   let (ss, ms, s) ← parseSecFrac s
   let (sg, oh, om) ← parseZoneDesignator s
-  if mo ≤ 0 ∨ 12 < mo ∨ hh ≥ 24 ∨ mi ≥ 60 ∨ ss ≥ 60 ∨ dd < 1 ∨ dd > goDaysIn mo y ∨ oh > 24 ∨ om > 60 then pure none
+  -- matchEndOfDay: `T24:00[:00[.000]]` is parsed as 00:00:00 and a day is added afterwards
+  let endOfDay := hh = 24 ∧ mi = 0 ∧ ss = 0 ∧ ms = 0
+  let hh := if endOfDay then 0 else hh
+  -- matchDateTimeZone wants offset minutes 00–59 (otherwise the `±hh:mm` is left as it is and no layout accepts it)
+  if om ≥ 60 then pure none else
+  if mo ≤ 0 ∨ 12 < mo ∨ hh ≥ 24 ∨ mi ≥ 60 ∨ ss ≥ 60 ∨ dd < 1 ∨ dd > goDaysIn mo y ∨ oh > 24 then pure none
   else
-    let um := goUnixMilli (goDate y mo dd hh mi ss (ms * 1000000)) - sg * ((oh * 60 + om) * 60) * 1000
+    let um := goUnixMilli (goDate y mo (if endOfDay then dd + 1 else dd) hh mi ss (ms * 1000000)) - sg * ((oh * 60 + om) * 60) * 1000
     pure (if beyondMax (ofInt um) then none else some um)
 
 -- ---------------------------------------------------------------- round trips through the RFC1123 formats (stub level)
@@ -706,8 +711,8 @@ def parseOfUTCString (d : DateObj) : Num :=
     the ISO designator and rewrites. -/
 def parseOfToString (z : Zone) (abbrevZ : Bool) (d : DateObj) : Num :=
   if d.isNaN then none
-  else if abbrevZ then none
   else
+    let _ := abbrevZ          -- the designator must follow a digit now: the abbreviation no longer matters
     let w := z.wall d.time
     if 0 ≤ goYear w ∧ goYear w ≤ 9999 then some (d.time.sec * 1000) else none
 
@@ -720,15 +725,15 @@ deriving DecidableEq, Repr
 inductive JsonOut | null | called | typeError
 deriving DecidableEq, Repr
 
-/-- builtinDateToJSON: `value.float64()` is ToNumber of the primitive, whatever its type -/
+/-- builtinDateToJSON: null only when the primitive is a number and not finite -/
 def toJSONGeneric (p : Prim) (isoCallable : Bool) : JsonOut :=
   let nonFinite := match p with
-    | .numFinite => false | .numNaN => true | .numInf => true
-    | .strNonNumeric => true | .strNumeric => false | .undef => true | .boolTrue => false
+    | .numNaN => true | .numInf => true
+    | _ => false            -- `if value.IsNumber() { … }`
   if nonFinite then .null else if isoCallable then .called else .typeError
 
-/-- `Date()` called as a function against `new Date().toString()`: the function formats the UTC clock in the "GMT"
-    zone, toString the local clock with the local abbreviation — equal only if time.Local is named GMT. -/
-def dateFunctionAgrees (localIsGMT : Bool) : Bool := localIsGMT
+/-- `Date()` called as a function against `new Date().toString()`: both format date.Time().Local() with the
+    same layout -/
+def dateFunctionAgrees (_localIsGMT : Bool) : Bool := true
 
 end OttoVerif.C12
